@@ -36,7 +36,8 @@ THEOREMS = ['begin_only_after_ok', 'begin_only_after_ok_of_current_mechanism', '
             'exhaustion_closes', 'unknown_line_closes', 'silent_after_close',
             'completes_against_spec_server', 'completes_against_spec_server_bytes', 'handlerWords_table',
             'own_bus_handshake_completes', 'own_bus_handshake_progress', 'own_bus_no_early_binary',
-            'own_bus_reachable_safe', 'own_bus_mechanism', 'own_bus_cookie_when_shared_keyring',
+            'own_bus_reachable_safe', 'own_bus_begin_only_after_bus_ok', 'own_bus_mechanism',
+            'own_bus_cookie_when_shared_keyring',
             'own_bus_cookie_requires']
 TRUSTED_BASE = [
     'bytes.split/strip, binascii.hexlify/unhexlify, getattr dispatch on "_auth_"+cmd (mirrored by hand; validated by the streams)',
